@@ -131,10 +131,11 @@ class ScriptedSocket(socket.socket):
     hands out `data` following `chunks` (sizes), never more than bufsize, then
     ends with `end`: 'close' (b''), 'timeout' (TimeoutError) or 'oserror'."""
 
-    def __init__(self, data: bytes, chunks, end="close"):
+    def __init__(self, data: bytes, chunks, end="close", pauses=()):
         super().__init__(socket.AF_INET, socket.SOCK_STREAM)
         self._data = data
         self._pos = 0
+        self._pauses = set(pauses)  # byte offsets before which one TimeoutError is raised
         self._chunks = list(chunks)
         self._ci = 0
         self._end = end
@@ -151,9 +152,17 @@ class ScriptedSocket(socket.socket):
             if self._end == "timeout":
                 raise TimeoutError("scripted timeout")
             raise OSError("scripted error")
+        if bufsize <= 0:
+            return b""  # like a real socket: a zero-size request returns nothing
+        if self._pos in self._pauses:
+            self._pauses.discard(self._pos)
+            raise TimeoutError("scripted quiet period")
         want = self._chunks[self._ci] if self._ci < len(self._chunks) else len(self._data)
         self._ci += 1
         n = max(1, min(bufsize, want, len(self._data) - self._pos))
+        nxt = [p for p in self._pauses if self._pos < p < self._pos + n]
+        if nxt:
+            n = min(nxt) - self._pos  # a quiet period ends the current delivery
         out = self._data[self._pos:self._pos + n]
         self._pos += n
         self.recv_sizes.append(n)
